@@ -38,67 +38,92 @@ def parseBool? (s : String) : Option Bool :=
 def show3 : Int × Int × Int → String
   | (a, b, c) => s!"{a} {b} {c}"
 
-def step (line : String) : String :=
-  let r : Option String :=
-    match tokens line with
-    | ["is_prime", x, bs] => do
-        let x ← parseInt? x; let bs ← parseNatList? bs
-        pure (showB (isPrimeB bs x))
-    | ["is_prime_d", x] => do
-        let x ← parseInt? x
-        pure (showB (isPrimeD x))
-    | ["next_prime", x] => do
-        let x ← parseInt? x
-        pure (showE toString (nextPrime isPrimeD x))
-    | ["prev_prime", x] => do
-        let x ← parseInt? x
-        pure (showE toString (prevPrime isPrimeD x))
-    | ["powmod", x, y, m] => do
-        let x ← parseInt? x; let y ← parseInt? y; let m ← parseInt? m
-        pure (showE toString (powmod x y m))
-    | ["invert", x, m] => do
-        let x ← parseInt? x; let m ← parseInt? m
-        pure (showE toString (invert x m))
-    | ["gcdext", a, b] => do
-        let a ← parseInt? a; let b ← parseInt? b
-        pure (showE show3 (gcdext a b))
-    | ["jacobi", x, y] => do
-        let x ← parseInt? x; let y ← parseInt? y
-        pure (showE toString (jacobi x y))
-    | ["legendre", x, y] => do
-        let x ← parseInt? x; let y ← parseInt? y
-        pure (showE toString (legendre x y))
-    | ["kronecker", x, y] => do
-        let x ← parseInt? x; let y ← parseInt? y
-        pure (showE toString (kronecker x y))
-    | ["isqrt", x] => do
-        let x ← parseInt? x
-        pure (showE toString (isqrt x))
-    | ["is_square", x] => do
-        let x ← parseInt? x
-        pure (showE showB (isSquare x))
-    | ["iroot", x, n] => do
-        let x ← parseInt? x; let n ← parseInt? n
-        pure (showE (fun (r : Int × Bool) => s!"{r.1} {showB r.2}") (iroot x n))
-    | ["fpp", x] => do
-        let x ← parseInt? x
-        pure (showE (fun (r : Int × Nat) => s!"{r.1} {r.2}") (factorPrimePower isPrimeD x))
-    | ["ratrec", x, y, N, D] => do
-        let x ← parseInt? x; let y ← parseInt? y
-        let N ← parseOptInt? N; let D ← parseOptInt? D
-        pure (showE (fun (r : Int × Int) => s!"{r.1} {r.2}") (ratrec x y N D))
-    | ["fpr", fuel, l, blum, n] => do
-        let fuel ← parseNat? fuel; let l ← parseInt? l; let blum ← parseBool? blum; let n ← parseInt? n
-        pure (showE show3 (findPrimeRoot isPrimeD fuel l blum n))
-    | ["fpr_o", fuel, l, blum, n, trues] => do
-        let fuel ← parseNat? fuel; let l ← parseInt? l; let blum ← parseBool? blum; let n ← parseInt? n
-        let trues ← parseIntList? trues
-        pure (showE show3 (findPrimeRoot (fun x => trues.contains x) fuel l blum n))
-    | ["pfield", fuel, l, f, k, p, n, m, t] => do
-        let fuel ← parseNat? fuel; let l ← parseInt? l; let f ← parseInt? f; let k ← parseInt? k
-        let p ← parseOptInt? p; let n ← parseInt? n; let m ← parseNat? m; let t ← parseNat? t
-        pure (showE toString (pfield isPrimeD fuel l f k p n m t))
-    | _ => none
-  r.getD "bad-op"
+def opIsPrime : List String → Option String
+  | [x, bs] => do
+    let x ← parseInt? x; let bs ← parseNatList? bs
+    pure (showB (isPrimeB bs x))
+  | _ => none
 
-def main : IO Unit := do MpycV.Util.loop (← IO.getStdin) step
+def op1 (f : Int → String) : List String → Option String
+  | [x] => do let x ← parseInt? x; pure (f x)
+  | _ => none
+
+def op2 (f : Int → Int → String) : List String → Option String
+  | [x, y] => do let x ← parseInt? x; let y ← parseInt? y; pure (f x y)
+  | _ => none
+
+def op3 (f : Int → Int → Int → String) : List String → Option String
+  | [x, y, z] => do let x ← parseInt? x; let y ← parseInt? y; let z ← parseInt? z; pure (f x y z)
+  | _ => none
+
+def showPairIB (r : Int × Bool) : String := s!"{r.1} {showB r.2}"
+def showPairIN (r : Int × Nat) : String := s!"{r.1} {r.2}"
+def showPairII (r : Int × Int) : String := s!"{r.1} {r.2}"
+
+def opRatrec : List String → Option String
+  | [x, y, N, D] => do
+    let x ← parseInt? x; let y ← parseInt? y
+    let N ← parseOptInt? N; let D ← parseOptInt? D
+    pure (showE showPairII (ratrec x y N D))
+  | _ => none
+
+def opFpr : List String → Option String
+  | [fuel, l, blum, n] => do
+    let fuel ← parseNat? fuel; let l ← parseInt? l; let blum ← parseBool? blum; let n ← parseInt? n
+    pure (showE show3 (findPrimeRoot isPrimeD fuel l blum n))
+  | _ => none
+
+def opFprO : List String → Option String
+  | [fuel, l, blum, n, trues] => do
+    let fuel ← parseNat? fuel; let l ← parseInt? l; let blum ← parseBool? blum; let n ← parseInt? n
+    let trues ← parseIntList? trues
+    pure (showE show3 (findPrimeRoot (fun x => trues.contains x) fuel l blum n))
+  | _ => none
+
+def opPfield : List String → Option String
+  | [fuel, l, f, k, p, n, m, t] => do
+    let fuel ← parseNat? fuel; let l ← parseInt? l; let f ← parseInt? f; let k ← parseInt? k
+    let p ← parseOptInt? p; let n ← parseInt? n; let m ← parseNat? m; let t ← parseNat? t
+    pure (showE toString (pfield isPrimeD fuel l f k p n m t))
+  | _ => none
+
+def dispatch (op : String) (args : List String) : Option String :=
+  if op == "is_prime" then opIsPrime args
+  else if op == "is_prime_d" then op1 (fun x => showB (isPrimeD x)) args
+  else if op == "next_prime" then op1 (fun x => showE toString (nextPrime isPrimeD x)) args
+  else if op == "prev_prime" then op1 (fun x => showE toString (prevPrime isPrimeD x)) args
+  else if op == "powmod" then op3 (fun x y m => showE toString (powmod x y m)) args
+  else if op == "invert" then op2 (fun x m => showE toString (invert x m)) args
+  else if op == "gcdext" then op2 (fun a b => showE show3 (gcdext a b)) args
+  else if op == "jacobi" then op2 (fun x y => showE toString (jacobi x y)) args
+  else if op == "legendre" then op2 (fun x y => showE toString (legendre x y)) args
+  else if op == "kronecker" then op2 (fun x y => showE toString (kronecker x y)) args
+  else if op == "isqrt" then op1 (fun x => showE toString (isqrt x)) args
+  else if op == "is_square" then op1 (fun x => showE showB (isSquare x)) args
+  else if op == "iroot" then op2 (fun x n => showE showPairIB (iroot x n)) args
+  else if op == "fpp" then op1 (fun x => showE showPairIN (factorPrimePower isPrimeD x)) args
+  else if op == "ratrec" then opRatrec args
+  else if op == "fpr" then opFpr args
+  else if op == "fpr_o" then opFprO args
+  else if op == "pfield" then opPfield args
+  else none
+
+def step (line : String) : String :=
+  match tokens line with
+  | op :: args => (dispatch op args).getD "bad-op"
+  | [] => "bad-op"
+
+/-- same contract as `MpycV.Util.loop` (one answer line per request line), output written in blocks -/
+partial def loopB (h : IO.FS.Stream) (out : IO.FS.Stream) (acc : String) (k : Nat) : IO Unit := do
+  let line ← h.getLine
+  if line.isEmpty then
+    out.putStr acc
+    out.flush
+    return ()
+  let acc := acc ++ step line ++ "\n"
+  if k ≥ 512 then
+    out.putStr acc
+    loopB h out "" 0
+  else loopB h out acc (k + 1)
+
+def main : IO Unit := do loopB (← IO.getStdin) (← IO.getStdout) "" 0
